@@ -43,10 +43,18 @@ def g_event(st, registry):
 def to_script(case):
     """case: {'registry': {name: outcome}, 'cached': [pkg idx], 'steps': [...], 'no_store': bool, 'config': ..., 'gated': bool}"""
     steps = []
+    nchange = 0
     for st in case['steps']:
         op = st['op']
         if op in ('open', 'change'):
-            steps.append({'op': op, 'uri': URIS[st['u']], 'text': text_of(st['rev'])})
+            step = {'op': op, 'uri': URIS[st['u']], 'text': text_of(st['rev'])}
+            if op == 'change':
+                nchange += 1
+                if nchange % 3 == 1:
+                    # one notification carrying two full-text changes: the first (another layout of the same manifest) is
+                    # superseded by the second, which is the document
+                    step['pre_texts'] = [text_of((st['rev'][0] + 2, st['rev'][1]))]
+            steps.append(step)
         elif op == 'close':
             steps.append({'op': 'close', 'uri': URIS[st['u']]})
         elif op == 'reply':
